@@ -87,6 +87,9 @@ type verdict struct {
 	Detail string
 	Accept bool // reference verdict
 	Canon  string
+	// Parsed: the text is lexically well-formed and has at least two parser-visible tokens, i.e. the case
+	// gets past the lexer and gives the parser/walker something to do (the non-triviality rule).
+	Parsed bool
 }
 
 // checkText runs config_parser.Parse(text) and compares with the reference.
@@ -94,6 +97,9 @@ type verdict struct {
 func checkText(text string, wantCanon string) verdict {
 	refSecs, refErr := refParse(text)
 	v := verdict{Accept: refErr == nil}
+	if vis, _, lerr := refLex(text); lerr == nil && len(vis) >= 2 {
+		v.Parsed = true
+	}
 	if refErr == nil {
 		v.Canon = canonSections(refSecs)
 		if wantCanon != "" && wantCanon != v.Canon {
